@@ -867,6 +867,11 @@ func (e *Exec) runFrame(f *Frame) (done []Outcome, more []*Frame) {
 			}
 			fnv, args, method := e.prepareCall(f, &in.Call)
 			outs := e.callValue(f.st, fnv, args, method, f.depth+1, nil)
+			for i := range outs {
+				if outs[i].Kind == OutPanic && outs[i].Why == "" {
+					outs[i].Why = f.fn.String() + " " + e.Prog.Fset.Position(in.Pos()).String()
+				}
+			}
 			if e.inInit && (f.fn.Synthetic == "package initializer" || strings.HasPrefix(f.fn.Name(), "init#")) {
 				for i := range outs {
 					if outs[i].Kind == OutPanic {
